@@ -165,7 +165,8 @@ DATES = [datetime.datetime(1970, 1, 1, tzinfo=datetime.timezone.utc),
          datetime.datetime(2024, 2, 29, 23, 59, 59, tzinfo=datetime.timezone.utc),
          datetime.datetime(2001, 9, 9, 1, 46, 40, 500000, tzinfo=datetime.timezone.utc)]
 REALS = [0.0, -0.0, 1.5, -1.25e-3, 1.7976931348623157e308]
-NLEAF = 10
+NLEAF = 11
+PLAIN_DATES = [datetime.date(2024, 2, 29), datetime.date(1970, 1, 1), datetime.date(2001, 7, 4)]
 
 
 def leaf(kind, i, s: str, b: bytes, sel):
@@ -187,6 +188,8 @@ def leaf(kind, i, s: str, b: bytes, sel):
         return llsd.uri("http://example.com/" + "x" * (sel % 3))
     if kind == 8:
         return None
+    if kind == 10:
+        return PLAIN_DATES[sel % len(PLAIN_DATES)]
     return Vector3(1.0, -2.5, 0.0)
 
 
@@ -206,6 +209,10 @@ def same_llsd(a, b) -> bool:
         return isinstance(a, UUID) and a == b
     if isinstance(b, datetime.datetime):
         return isinstance(a, datetime.datetime) and a == b and a.utcoffset() == datetime.timedelta(0)
+    if isinstance(b, datetime.date):
+        # a plain date is an LLSD date at midnight UTC of that day, whatever the process time zone
+        return isinstance(a, datetime.datetime) and a.utcoffset() == datetime.timedelta(0) and \
+            a == datetime.datetime(b.year, b.month, b.day, tzinfo=datetime.timezone.utc)
     if isinstance(b, (list, tuple)):
         return isinstance(a, list) and len(a) == len(b) and all(same_llsd(x, y) for x, y in zip(a, b))
     if isinstance(b, dict):
@@ -221,8 +228,8 @@ BINS = [b"", b"\x00", b"\xff\x01"]
 
 @harness(pre=["0 <= shape <= 3", "0 <= k0 < NLEAF", "0 <= k1 < NLEAF", "i0 in (-2**31, -1, 0, 1, 2**31 - 1)", "i1 == 7",
               "s0 == 0", "b0 == 0", "0 <= sel <= 4"], post="_", timeout=400,
-         note="binary LLSD: trees {leaf, [l0, l1], {a: l0, b: [l1]}, [[l0], {k: l1}]} over 10 leaf kinds (S32 boundary values, bool; "
-              "catalogue strs incl. non-ASCII/newline/NUL, binaries, reals incl. -0.0, UUID, 3 dates, URIs, undef, Vector3): "
+         note="binary LLSD: trees {leaf, [l0, l1], {a: l0, b: [l1]}, [[l0], {k: l1}]} over 11 leaf kinds (S32 boundary values, bool; "
+              "catalogue strs incl. non-ASCII/newline/NUL, binaries, reals incl. -0.0, UUID, 3 aware datetimes, 3 plain dates, URIs, undef, Vector3), process time zone Los Angeles / UTC / Berlin: "
               "parse(format(v)) has the same value and the same LLSD type at every node, with and without header, through the "
               "library parser and the buffered parser used inside serialization specs", covers=COVERS_BIN)
 def binary_roundtrip(shape: int, k0: int, k1: int, i0: int, i1: int, s0: int, b0: int, sel: int, header: bool) -> bool:
@@ -231,15 +238,26 @@ def binary_roundtrip(shape: int, k0: int, k1: int, i0: int, i1: int, s0: int, b0
     l0 = leaf(k0, i0, sv, bv, sel)
     l1 = leaf(k1, i1, sv + "z", bv + b"\x00", sel + 1)
     v = [l0, [l0, l1], {"a": l0, "b": [l1]}, [[l0], {"k": l1}]][shape]
-    data = llsd.format_binary(v, with_header=header)
-    if not same_llsd(llsd.parse_binary(data), v):
-        return False
-    if not header:
-        r = se.BufferReader("<", data + b"tail")
-        got = r.read(se.BinaryLLSD)
-        if not same_llsd(got, v) or bytes(r.read_bytes(len(r))) != b"tail":
+    _set_zone("UTC" if sel == 2 else ("Europe/Berlin" if sel == 4 else "America/Los_Angeles"))
+    try:
+        data = llsd.format_binary(v, with_header=header)
+        if not same_llsd(llsd.parse_binary(data), v):
             return False
-    return True
+        if not header:
+            r = se.BufferReader("<", data + b"tail")
+            got = r.read(se.BinaryLLSD)
+            if not same_llsd(got, v) or bytes(r.read_bytes(len(r))) != b"tail":
+                return False
+        return True
+    finally:
+        _set_zone("UTC")
+
+
+def _set_zone(name):
+    import os
+    import time
+    os.environ["TZ"] = name
+    time.tzset()
 
 
 shard(binary_roundtrip, "shape", range(4), ["leaf", "array", "map", "nested"], globals())
